@@ -245,6 +245,73 @@ DIR_OV = {
 }
 
 
+# ------------------------------------------------------------------ modulefinder.find_modules_recursive: one entry
+
+import mypy.modulefinder as MF  # noqa: E402
+from mypy.options import Options  # noqa: E402
+
+ISFILE = z3.Function("fs_isfile", StrS, BoolS)
+
+
+def fmr_rec_contract(I, args, kwargs):
+    I.ctx.events.append(("recurse", args[1]))
+    return SList([])
+
+
+def setup_fmr_entry(I):
+    self = I.make(TObj(MF.FindModuleCache), "self")
+    opts = I.make(TObj(Options), "options")
+    self.fields["options"] = opts
+    name, pkg, module = I.make(TStr(), "name"), I.make(TStr(), "package_path"), I.make(TStr(), "module")
+    seen = I.make(TSet(TStr()), "seen")
+    return {"args": [], "locals": {"self": self, "name": name, "package_path": pkg, "module": module, "seen": seen, "sources": SList([]), "names": I.make(TSeq(TStr()), "names")},
+            "self": self, "name": name, "pkg": pkg, "module": module, "seen0": seen.t, "opts": opts}
+
+
+def ens_fmr_entry(I, env, res):
+    """a sub-DIRECTORY is searched exactly when it is a package: namespace packages are on, or it holds an
+    __init__.py or an __init__.pyi (the same notion of package as find_sources.get_init_file); it is then
+    searched under module + '.' + name"""
+    g = I.ctx.ghost
+    name = env["name"].t
+    sub = JOINP(env["pkg"].t, name)
+    rec = [e for e in I.ctx.events if e[0] == "recurse"]
+    excluded = g.get("excluded_flag")
+    skipped_name = z3.Or([name == z3.StringVal(x) for x in ("__pycache__", "site-packages", "node_modules")] + [z3.PrefixOf(z3.StringVal("."), name)])
+    ns = I.getattr(env["opts"], "namespace_packages").t
+    is_pkg = z3.Or(ns, ISFILE(JOINP(sub, z3.StringVal("__init__.py"))), ISFILE(JOINP(sub, z3.StringVal("__init__.pyi"))))
+    if len(rec) > 1:
+        return z3.BoolVal(False)
+    isdir = ISDIR(sub)
+    if rec:
+        target_ok = z3.Implies(isdir, z3.And(is_pkg, rec[0][1].t == z3.Concat(env["module"].t, z3.StringVal("."), name)))
+        return z3.And(z3.Not(skipped_name), target_ok)
+    # nothing searched: for a directory that is only allowed when it is skipped, excluded or not a package
+    filt = z3.BoolVal(False)
+    for k in ("excluded", "gitignored"):
+        v = g.get("flag_" + k)
+        if v is not None:
+            filt = z3.Or(filt, v)
+    return z3.Implies(z3.And(isdir, z3.Not(skipped_name), z3.Not(filt)), z3.Not(is_pkg))
+
+
+def flag_contract(key):
+    def h(I, args, kwargs):
+        v = I.make(TBool(), key)
+        I.ctx.ghost["flag_" + key] = v.t
+        return v
+    return h
+
+
+FMR_OV = {
+    "mypy.util:os_path_join": lambda I, a, k: SStr(JOINP(a[0].t, a[1].t)), "mypy.modulefinder:os_path_join": lambda I, a, k: SStr(JOINP(a[0].t, a[1].t)),
+    "posixpath:splitext": lambda I, a, k: STuple([SStr(STEM(a[0].t)), SStr(SUFFIX(a[0].t))]),
+    "mypy.modulefinder:matches_exclude": flag_contract("excluded"), "mypy.modulefinder:matches_gitignore": flag_contract("gitignored"),
+    "mypy.modulefinder:FindModuleCache.find_modules_recursive@rec": fmr_rec_contract,
+    "contracts.spec_paths:FakeFsCache.isdir": lambda I, a, k: SBool(ISDIR(a[1].t)), "contracts.spec_paths:FakeFsCache.isfile": lambda I, a, k: SBool(ISFILE(a[1].t)),
+}
+
+
 def targets(tier):
     rec = {"mypy.find_sources:SourceFinder._crawl_up_helper@rec": helper_rec_contract, "mypy.find_sources:SourceFinder.crawl_up_dir": crawl_up_dir_contract}
     return [
@@ -260,6 +327,11 @@ def targets(tier):
                ensures=[("entry-adds-exactly-its-sources-and-claims", ens_dir_entry)], raises=(FS.InvalidSourceList,), overrides=DIR_OV,
                field_types={**FT, ("SourceFinder", "fscache"): TObj(FakeFsCache), ("SourceFinder", "exclude"): TSeq(TStr()), ("SourceFinder", "exclude_gitignore"): TBool()},
                note="one generic directory entry; the recursive call, crawl_up, the exclusion filters and the file system enter through contracts"),
+        Target("paths.find_modules_recursive.entry", "mypy.modulefinder:FindModuleCache.find_modules_recursive", setup_fmr_entry, loop_body=("for name in names", None),
+               ensures=[("package-directories-are-searched", ens_fmr_entry)], raises=(), overrides=FMR_OV,
+               field_types={("FindModuleCache", "fscache"): TObj(FakeFsCache), ("FindModuleCache", "options"): TOpt(TObj(Options)), ("Options", "exclude"): TSeq(TStr()),
+                            ("Options", "exclude_gitignore"): TBool(), ("Options", "namespace_packages"): TBool(), ("Options", "verbosity"): TInt()},
+               note="one generic directory entry of `-p PKG` discovery; the recursive call and the file system enter through contracts"),
         Target("paths.crawl_up", "mypy.find_sources:SourceFinder.crawl_up", setup_crawl_up, ensures=[("module-is-package-plus-stem", ens_crawl_up)],
                raises=(FS.InvalidSourceList, AssertionError), overrides=dict(OV, **{"mypy.find_sources:SourceFinder.crawl_up_dir": crawl_up_dir_contract}), field_types=FT),
     ]
